@@ -17,6 +17,62 @@ func forE(l *Loop, as string, c *CmdT) Entry {
 	return Entry{Kind: "for", Loop: l, As: as, C: c}
 }
 
+var setPool = []string{"e", "u", "x", "pipefail", "errexit"}
+var shoptPool = []string{"globstar", "nullglob", "expand_aliases"}
+var platformPool = []string{"linux", "darwin", "windows", "amd64", "arm64", "linux/amd64", "darwin/arm64", "windows/amd64"}
+
+func pick(r *rand.Rand, pool []string, max int) []string {
+	n := 1 + r.Intn(max)
+	out := make([]string, n)
+	for i := range out {
+		out[i] = pool[r.Intn(len(pool))]
+	}
+	return out
+}
+
+// randAttrs: what the decoder reads for the kind of entry: a cmd: entry takes every attribute, a
+// task: entry / a dep only silent
+func randAttrs(r *rand.Rand, call bool) Attrs {
+	var a Attrs
+	if r.Intn(2) == 0 {
+		return a
+	}
+	a.Silent = r.Intn(3) == 0
+	if call {
+		return a
+	}
+	a.IgnoreError = r.Intn(2) == 0
+	if r.Intn(3) == 0 {
+		a.Set = pick(r, setPool, 2)
+	}
+	if r.Intn(3) == 0 {
+		a.Shopt = pick(r, shoptPool, 2)
+	}
+	if r.Intn(3) == 0 {
+		a.Platforms = pick(r, platformPool, 3)
+	}
+	return a
+}
+
+// the i-th of a fixed cycle of attribute settings (systematic families)
+func cycAttrs(i int) Attrs {
+	switch i % 8 {
+	case 1:
+		return Attrs{IgnoreError: true}
+	case 2:
+		return Attrs{Silent: true}
+	case 3:
+		return Attrs{Set: []string{"e", "u"}}
+	case 4:
+		return Attrs{Shopt: []string{"globstar"}}
+	case 5:
+		return Attrs{Platforms: []string{"linux", "darwin/arm64", "amd64"}}
+	case 6:
+		return Attrs{IgnoreError: true, Silent: true, Set: []string{"pipefail"}, Shopt: []string{"nullglob", "globstar"}, Platforms: []string{"windows"}}
+	}
+	return Attrs{}
+}
+
 func asName(as string) string {
 	if as == "" {
 		return "ITEM"
@@ -38,7 +94,7 @@ func depOf(e Entry) Entry {
 	} else {
 		vt = []Piece{pv(n)}
 	}
-	return forE(e.Loop, e.As, &CmdT{Call: true, Task: []Piece{lit("sub1")}, Vars: []VarT{{Name: "V", T: vt}}})
+	return forE(e.Loop, e.As, &CmdT{Attrs: Attrs{Silent: e.C.Attrs.Silent || e.C.Attrs.IgnoreError}, Call: true, Task: []Piece{lit("sub1")}, Vars: []VarT{{Name: "V", T: vt}}})
 }
 
 var itemPool = []string{"a", "b", "c", "b c", "foo.txt", "x  y", "7", "42", "it's", `say "hi"`, "a,b", "-n", "", "Z_9", "$HOME", "k=v", "*.go", "#5"}
@@ -173,7 +229,7 @@ func randTmpl(r *rand.Rand, l *Loop, as string) []Piece {
 
 func randCmdT(r *rand.Rand, l *Loop, as string, dep bool) *CmdT {
 	if dep || r.Intn(3) == 0 {
-		c := &CmdT{Call: true, Task: []Piece{lit([]string{"sub1", "sub2", "sub-", "ns:"}[r.Intn(4)])}}
+		c := &CmdT{Attrs: randAttrs(r, true), Call: true, Task: []Piece{lit([]string{"sub1", "sub2", "sub-", "ns:"}[r.Intn(4)])}}
 		if r.Intn(3) == 0 {
 			c.Task = append(c.Task, randTmpl(r, l, as)...)
 		}
@@ -183,12 +239,12 @@ func randCmdT(r *rand.Rand, l *Loop, as string, dep bool) *CmdT {
 		}
 		return c
 	}
-	return &CmdT{Shell: append([]Piece{lit("echo ")}, randTmpl(r, l, as)...)}
+	return &CmdT{Attrs: randAttrs(r, false), Shell: append([]Piece{lit("echo ")}, randTmpl(r, l, as)...)}
 }
 
 func randPlain(r *rand.Rand, dep bool) Entry {
 	if dep || r.Intn(4) == 0 {
-		x := &XCmd{Call: true, Task: []string{"sub1", "sub2"}[r.Intn(2)]}
+		x := &XCmd{Attrs: randAttrs(r, true), Call: true, Task: []string{"sub1", "sub2"}[r.Intn(2)]}
 		if r.Intn(2) == 0 {
 			x.Vars = []KV{{"V", itemPool[r.Intn(len(itemPool))]}}
 		}
@@ -196,7 +252,9 @@ func randPlain(r *rand.Rand, dep bool) Entry {
 	}
 	e := plainSh("echo plain" + fmt.Sprint(r.Intn(100)))
 	if r.Intn(8) == 0 {
-		e.Defer = true
+		e.Plain.Attrs = Attrs{Defer: true, Silent: r.Intn(3) == 0}
+	} else if r.Intn(3) == 0 {
+		e.Plain.Attrs = randAttrs(r, false)
 	}
 	return e
 }
@@ -282,6 +340,46 @@ func runCaseOf(r *rand.Rand) *Case {
 	return c
 }
 
+// runFailCaseOf: commands of the form  echo "<line>"; (exit <code>)  where the code is the loop item
+func runFailCaseOf(r *rand.Rand, i int) *Case {
+	c := &Case{Kind: "run", Family: "run-fail"}
+	codes := func() []string {
+		n := 1 + r.Intn(4)
+		out := make([]string, n)
+		for j := range out {
+			out[j] = []string{"0", "0", "3", "7", "1"}[r.Intn(5)]
+		}
+		if i%2 == 0 { // make sure one iteration in the middle fails
+			out = append(out, "3", "0")
+		}
+		return out
+	}
+	ign := func() Attrs { return Attrs{IgnoreError: i%4 < 2 || r.Intn(3) == 0, Silent: r.Intn(4) == 0} }
+	c.Cmds = append(c.Cmds, plainSh(`echo "before"`))
+	nl := 1 + r.Intn(2)
+	for k := 0; k < nl; k++ {
+		tag := fmt.Sprintf("L%d:", k)
+		switch (i + k) % 5 {
+		case 0:
+			c.Cmds = append(c.Cmds, forE(&Loop{Kind: "list", Items: codes()}, "", &CmdT{Attrs: ign(),
+				Shell: []Piece{lit(`echo "` + tag), pv("ITEM"), lit(`"; (exit `), pv("ITEM"), lit(")")}}))
+		case 1:
+			c.Cmds = append(c.Cmds, forE(&Loop{Kind: "matrix", Rows: []Row{{Key: "N", Items: []string{"a", "b"}}, {Key: "CODE", Items: codes()}}}, "M", &CmdT{Attrs: ign(),
+				Shell: []Piece{lit(`echo "` + tag), pf("M", "N"), lit("/"), pf("M", "CODE"), lit(`"; (exit `), pf("M", "CODE"), lit(")")}}))
+		case 2:
+			c.Cmds = append(c.Cmds, forE(&Loop{Kind: "split", Value: strings.Join(codes(), ","), Sep: ","}, "C", &CmdT{Attrs: ign(),
+				Shell: []Piece{lit(`echo "` + tag), pv("C"), lit(`"; (exit `), pv("C"), lit(")")}}))
+		case 3:
+			c.Cmds = append(c.Cmds, forE(&Loop{Kind: "varlist", Items: codes()}, "", &CmdT{Attrs: ign(),
+				Shell: []Piece{lit(`echo "` + tag), pv("ITEM"), lit(`"; (exit `), pv("ITEM"), lit(")")}}))
+		default: // a plain failing command, for comparison
+			c.Cmds = append(c.Cmds, Entry{Kind: "plain", Plain: &XCmd{Attrs: ign(), Shell: `echo "` + tag + `plain"; (exit ` + []string{"0", "5"}[r.Intn(2)] + ")"}})
+		}
+	}
+	c.Cmds = append(c.Cmds, plainSh(`echo "after"`))
+	return c
+}
+
 // ---------------------------------------------------------------- the families
 
 // all lists over alpha of length 0..maxLen
@@ -321,6 +419,11 @@ func generate(r *rand.Rand, n int, tier string, systematic bool) []*Case {
 	thorough := tier == "thorough"
 	mk := func(fam string, cmds []Entry) *Case {
 		c := &Case{Kind: "compile", Family: fam, Cmds: cmds, Fast: len(cases)%4 == 3}
+		for i := range cmds {
+			if cmds[i].Kind == "for" && cmds[i].C.Attrs.zero() {
+				cmds[i].C.Attrs = cycAttrs(len(cases) + i)
+			}
+		}
 		for _, e := range cmds {
 			if e.Kind == "for" {
 				c.Deps = append(c.Deps, depOf(e))
@@ -413,6 +516,41 @@ func generate(r *rand.Rand, n int, tier string, systematic bool) []*Case {
 			addFiles(rand.New(rand.NewSource(int64(i))), c)
 		}
 
+		// (4b) attributes: every loop form x every attribute setting; the plain commands around the loop
+		// carry different attributes than the loop
+		forms := []func() (*Loop, []Piece){
+			func() (*Loop, []Piece) {
+				return &Loop{Kind: "list", Items: []string{"a", "b c", "a"}}, []Piece{pv("ITEM")}
+			},
+			func() (*Loop, []Piece) { return &Loop{Kind: "varlist", Items: []string{"u", "v"}}, []Piece{pv("ITEM")} },
+			func() (*Loop, []Piece) { return &Loop{Kind: "files", From: "sources"}, []Piece{pv("ITEM")} },
+			func() (*Loop, []Piece) {
+				return &Loop{Kind: "matrix", Rows: []Row{{Key: "OS", Items: []string{"l", "d"}}, {Key: "ARCH", Items: []string{"x", "y"}}}}, []Piece{pf("ITEM", "OS"), lit("/"), pf("ITEM", "ARCH")}
+			},
+			func() (*Loop, []Piece) { return &Loop{Kind: "split", Value: "p,q,r", Sep: ","}, []Piece{pv("ITEM")} },
+			func() (*Loop, []Piece) { return &Loop{Kind: "split", Value: " p  q ", Sep: ""}, []Piece{pv("ITEM")} },
+			func() (*Loop, []Piece) {
+				return &Loop{Kind: "map", KVs: []KV{{"k1", "v1"}, {"k2", "v2"}}}, []Piece{pv("KEY"), lit("="), pv("ITEM")}
+			},
+		}
+		for fi, f := range forms {
+			for ai := 1; ai <= 6; ai++ {
+				l, body := f()
+				pre := Entry{Kind: "plain", Plain: &XCmd{Attrs: cycAttrs(ai + 1), Shell: "echo before"}}
+				post := Entry{Kind: "plain", Plain: &XCmd{Attrs: cycAttrs(ai + 3), Shell: "echo after"}}
+				c := mk("attrs", []Entry{pre, forE(l, "", &CmdT{Attrs: cycAttrs(ai), Shell: append([]Piece{lit("echo ")}, body...)}), post})
+				if l.Kind == "files" {
+					addFiles(rand.New(rand.NewSource(int64(fi))), c)
+				}
+			}
+		}
+
+		// (6a) end to end with failing iterations: a looped command `echo ..; (exit <item>)` with and without
+		// ignore_error: with it the failure is suppressed for exactly that iteration (the later iterations
+		// and the later commands run, Run returns nil), without it the task stops there
+		for i := 0; i < 16; i++ {
+			cases = append(cases, runFailCaseOf(rand.New(rand.NewSource(int64(i))), i))
+		}
 	} // systematic
 
 	// (5) random mixtures: several loops of all forms, plain commands and task calls before / between /
@@ -435,7 +573,11 @@ func generate(r *rand.Rand, n int, tier string, systematic bool) []*Case {
 		nr = 12
 	}
 	for i := 0; i < nr; i++ {
-		cases = append(cases, runCaseOf(r))
+		if i%3 == 2 {
+			cases = append(cases, runFailCaseOf(r, r.Intn(1<<20)))
+		} else {
+			cases = append(cases, runCaseOf(r))
+		}
 	}
 	return cases
 }
